@@ -31,7 +31,7 @@ out.append("## 2. Sensitivity: seeded changes\n")
 nseeds = len(glob.glob("/verif/seeded/*/meta.json"))
 out.append("%d changes made by independent sub-agents that were given only a property's text and a scratch worktree (never anything from /verif), each "
            "confirmed to build, to pass the whole test suite and to fail its own demonstration only with the change. `seeded/INDEX.md` has what each one is "
-           "and what happened when it was first evaluated (more than half of them were missed by the check as it stood and led to a generator, fault-kind or oracle extension; DESIGN.md 11.4). " % nseeds
+           "and what happened when it was first evaluated (about half of them were missed by the check as it stood and led to a generator, fault-kind or oracle extension; DESIGN.md 11.4). " % nseeds
            +
            "`tools/seedregress.py` re-applies every kept patch to a scratch worktree of the final /repo and re-runs the final quick check:\n")
 reg = "/verif/seeded/REGRESSION.md"
